@@ -119,7 +119,7 @@ def task(item):
                     out_v.append(viol('roundtrip-json:%s:%s' % (pos, rtbase.shape_kind(shape)), 'encode(decode(encode(v))) != encode(v) (%s): %s vs %s' % (
                         mode, json.dumps(again)[:200], enc_str[:200]), inputs2))
                     continue
-                oc['roundtrip-ok'] += 1
+                oc['roundtrip-ok:%s' % rtbase.json_kind(enc_obj)] += 1
     return {'outcome': oc, 'viol': out_v, 'n': n, 'transitions': n}
 
 
